@@ -77,12 +77,15 @@ func (esp *EntityStreamParser) ParseTransaction(reader io.Reader) (*Transaction,
 		return nil, errors.New("parsing error: Unable to decode context " + err.Error())
 	}
 
-	for k, v := range context["namespaces"].(map[string]interface{}) {
-		esp.localNamespaces[k] = v.(string)
+	if err = esp.readNamespaces(context); err != nil {
+		return nil, err
 	}
 
 	for {
-		t, _ = decoder.Token()
+		t, err = decoder.Token()
+		if err != nil {
+			return nil, errors.New("parsing error: Unable to read next token " + err.Error())
+		}
 		delimVal, isDelim := t.(json.Delim)
 		if isDelim {
 			if delimVal.String() == "}" {
@@ -91,7 +94,10 @@ func (esp *EntityStreamParser) ParseTransaction(reader io.Reader) (*Transaction,
 				return nil, errors.New("parsing error: Unexpected delimiter: " + delimVal.String())
 			}
 		} else {
-			datasetName := t.(string)
+			datasetName, isString := t.(string)
+			if !isString {
+				return nil, errors.New("parsing error: expected dataset name")
+			}
 
 			// read [
 			t, err = decoder.Token()
@@ -99,8 +105,8 @@ func (esp *EntityStreamParser) ParseTransaction(reader io.Reader) (*Transaction,
 				return nil, errors.New("parsing error: Unable to read next token " + err.Error())
 			}
 			delimVal, isDelim := t.(json.Delim)
-			if !isDelim && delimVal.String() != "[" {
-				return nil, errors.New("parsing error: Unexpected delimiter - expected [ but got : " + delimVal.String())
+			if !isDelim || delimVal.String() != "[" {
+				return nil, errors.New("parsing error: expected [ at start of the entities of dataset " + datasetName)
 			}
 			done := false
 			entities := make([]*Entity, 0)
@@ -120,6 +126,8 @@ func (esp *EntityStreamParser) ParseTransaction(reader io.Reader) (*Transaction,
 				} else if isDelim && delimVal.String() == "]" {
 					done = true
 					break
+				} else {
+					return nil, errors.New("parsing error: unexpected value in entity array")
 				}
 			}
 
@@ -154,8 +162,8 @@ func (esp *EntityStreamParser) ParseStream(reader io.Reader, emitEntity func(*En
 	}
 
 	if context["id"] == "@context" {
-		for k, v := range context["namespaces"].(map[string]interface{}) {
-			esp.localNamespaces[k] = v.(string)
+		if err = esp.readNamespaces(context); err != nil {
+			return err
 		}
 	} else {
 		return errors.New("first entity in array must be a context")
@@ -198,6 +206,25 @@ func (esp *EntityStreamParser) ParseStream(reader io.Reader, emitEntity func(*En
 	return nil
 }
 
+// readNamespaces copies the namespace mappings of a context object into the parser
+func (esp *EntityStreamParser) readNamespaces(context map[string]interface{}) error {
+	if context["namespaces"] == nil {
+		return nil
+	}
+	namespaces, ok := context["namespaces"].(map[string]interface{})
+	if !ok {
+		return errors.New("parsing error: namespaces of the context must be an object")
+	}
+	for k, v := range namespaces {
+		expansion, ok := v.(string)
+		if !ok {
+			return errors.New("parsing error: namespace expansion of prefix " + k + " must be a string")
+		}
+		esp.localNamespaces[k] = expansion
+	}
+	return nil
+}
+
 func (esp *EntityStreamParser) parseEntity(decoder *json.Decoder) (*Entity, error) {
 	e := &Entity{}
 	e.Properties = make(map[string]interface{})
@@ -222,11 +249,15 @@ func (esp *EntityStreamParser) parseEntity(decoder *json.Decoder) (*Entity, erro
 					return nil, errors.New("unable to read token of id value " + err2.Error())
 				}
 
-				if val.(string) == "@continuation" {
+				idVal, isString := val.(string)
+				if !isString {
+					return nil, errors.New("id must be a string")
+				}
+				if idVal == "@continuation" {
 					e.ID = "@continuation"
 					isContinuation = true
 				} else {
-					nsID, err2 := esp.store.GetNamespacedIdentifier(val.(string), esp.localNamespaces)
+					nsID, err2 := esp.store.GetNamespacedIdentifier(idVal, esp.localNamespaces)
 					if err2 != nil {
 						return nil, err2
 					}
@@ -237,14 +268,22 @@ func (esp *EntityStreamParser) parseEntity(decoder *json.Decoder) (*Entity, erro
 				if err2 != nil {
 					return nil, errors.New("unable to read token of recorded value " + err2.Error())
 				}
-				e.Recorded = uint64(val.(float64))
+				recorded, isNumber := val.(float64)
+				if !isNumber {
+					return nil, errors.New("recorded must be a number")
+				}
+				e.Recorded = uint64(recorded)
 
 			case "deleted":
 				val, err2 := decoder.Token()
 				if err2 != nil {
 					return nil, errors.New("unable to read token of deleted value " + err2.Error())
 				}
-				e.IsDeleted = val.(bool)
+				deleted, isBool := val.(bool)
+				if !isBool {
+					return nil, errors.New("deleted must be a boolean")
+				}
+				e.IsDeleted = deleted
 
 			case "props":
 				e.Properties, err = esp.parseProperties(decoder)
